@@ -110,15 +110,18 @@ def mwSpecOK (cfg : MwCfg) (o : Out) (m : MwObs) : Bool :=
 
 /-! ## sliding window -/
 
+/-- the key and window (by its start) an answered request is admitted in, if its handler ran -/
+def admittedOf (cfg : WinCfg) (reqs : List WinReq) (a : Nat × WinObs) : Option (Bytes × Nat) :=
+  match reqs[a.1]? with
+  | some q => if a.2.ran then some (q.key, windowStart cfg.W q.now) else none
+  | none => none
+
 /-- per key and fixed window (identified by its start), at most `limit` admissions
     (a limiter configured as report-only — neither `Enforce` nor a callback — rejects nothing) -/
 def windowBoundOK (cfg : WinCfg) (reqs : List WinReq) (answers : List (Nat × WinObs)) : Bool :=
   if !cfg.enforce && !cfg.hasCallback then true else
-  let admitted : List (Bytes × Nat) := answers.filterMap fun a =>
-    match reqs[a.1]? with
-    | some q => if a.2.ran then some (q.key, windowStart cfg.W q.now) else none
-    | none => none
-  admitted.eraseDups.all fun kw => decide ((admitted.filter (· == kw)).length ≤ cfg.limit)
+  (answers.filterMap (admittedOf cfg reqs)).eraseDups.all fun kw =>
+    decide (((answers.filterMap (admittedOf cfg reqs)).filter (· == kw)).length ≤ cfg.limit)
 
 /-- a retry: request `j` is the next request on its key after request `i`, `i` was answered 429 with
     `Retry-After: R`, and `j` is issued at least `R` seconds later — then `j` must be admitted -/
